@@ -159,14 +159,107 @@ def judge_default(ctx, inst, S):
                 return r
             return dom
         argspecs = [(b, lb, mkdom(b, lb) if lb else None) for (b, lb, d) in argspecs]
-    v, detail, wit = lanecheck.compare(actual, expected, S, argspecs, ctx.names, lane_bits, inst.pure,
-                                       env_ok=getattr(inst, "env_ok", None))
+    lanecheck.MASK_LANES[0] = None
+    if inst.ret == "M" and ctx.retrep and actual is not None and vt.n > 1:
+        if ctx.retrep[0] == "lane" and actual[1] == ctx.retrep[1] * vt.n:
+            lanecheck.MASK_LANES[0] = (ctx.retrep[1], vt.n)
+        elif ctx.retrep[0] == "k":
+            lanecheck.MASK_LANES[0] = (1, vt.n)
+    try:
+        v, detail, wit = lanecheck.compare(actual, expected, S, argspecs, ctx.names, lane_bits, inst.pure,
+                                           env_ok=getattr(inst, "env_ok", None))
+    finally:
+        lanecheck.MASK_LANES[0] = None
     rule = "normal form of %s == %s" % (inst.op, T.show(expected, 3, ctx.names))
+    if v == UNDECIDED and actual is not None:
+        # alternative closed forms of the same specification (each with its derivation in spec/ops.py):
+        # identity with one of them is a proof; refutation always uses the primary form
+        for alt in getattr(inst, "expect_alt", ()):
+            e2 = alt(ctx)
+            if e2 is actual and not (inst.pure and [a for a in S.accesses if a.kind == "w"]):
+                v, detail, wit = HOLDS, "identical to the alternative closed form of the specification: " + T.show(e2, 3, ctx.names), None
+                break
     if v == HOLDS and S.unknown:
         v, detail = UNDECIDED, "matches but body contains unmodelled %s" % S.unknown[:3]
     if v == UNDECIDED and S.unknown:
         detail = "unmodelled %s; %s" % (sorted(set(S.unknown))[:3], detail)
     return v, detail, rule, wit
+
+
+def amount_split(I, vt, inst, f, ctx, S):
+    """Complete case split on a small-domain operand (shift / rotate amount): (1) the closed form of
+    output lane i mentions, of both operands, only lane i (syntactic, hence a sound bound on the semantic
+    dependence), and of the amount only its low nb bits; (2) for every value of those bits inside the documented
+    domain the amount is replaced by that constant in every lane, the wrapper is summarised again and the
+    result must agree with the specification for that constant (identical normal form or truth table).
+    returns (HOLDS, text) or (None, reason)"""
+    nm = inst.amount_arg
+    k = ctx.argidx[nm]
+    bits, lb, dom = ctx.argspecs[k]
+    actual = S.ret
+    if actual is None or S.flags & {"loop", "call", "asm", "indirect-call"}:
+        return None, "unmodelled"
+    eb = vt.eb
+    n = vt.n
+    vec_amount = bool(lb) and bits // lb == n and n > 1 and ctx.argkinds[nm] in ("V", "VA")
+    # (1) lane structure and amount bits used
+    used = 0
+    for i in range(n):
+        lt = T.slice_(actual, i * eb, eb)
+        for lf in T.leaves(lt, ("arg", "mem")):
+            if lf[0] == "mem":
+                return None, "memory leaf"
+            ai = lf[2]
+            if ai == k:
+                if vec_amount:
+                    if not (i * lb <= lf[3] and lf[3] + lf[1] <= (i + 1) * lb):
+                        return None, "lane %d reads the amount of another lane" % i
+                    used |= ((1 << lf[1]) - 1) << (lf[3] - i * lb)
+                else:
+                    used |= ((1 << lf[1]) - 1) << lf[3]
+            else:
+                b2, lb2, d2 = ctx.argspecs[ai]
+                if lb2 and b2 // lb2 == n and n > 1 and not (i * lb2 <= lf[3] and lf[3] + lf[1] <= (i + 1) * lb2):
+                    return None, "lane %d reads another lane of operand %d" % (i, ai)
+    nb = used.bit_length()
+    if used != (1 << nb) - 1 and used:
+        nb = used.bit_length()
+    if nb > 7:
+        return None, "the amount contributes %d bits" % nb
+    # the specification must not look at further amount bits either
+    e0 = inst.expect(ctx)
+    for lf in T.leaves(e0, ("arg",)):
+        if lf[2] == k:
+            off = lf[3] % lb if vec_amount else lf[3]
+            if off + lf[1] > nb:
+                nb = off + lf[1]
+    if nb > 7:
+        return None, "the specification reads %d amount bits" % nb
+    cases = 0
+    for val in range(1 << nb):
+        if vec_amount:
+            full = sum(val << (l * lb) for l in range(n))
+        else:
+            full = val
+        if dom is not None and dom(full) != full:
+            continue
+        ctx2 = make_ctx(vt, inst, f)
+        ctx2.argterms[k] = T.const(ctx2.argterms[k][1], full)
+        ctx2.args[nm] = ctx2.argterms[k]
+        S2 = I.summarise(inst.fname, ctx2.argterms, ctx2.boolmem)
+        if S2.ret is None or S2.flags & {"loop", "call", "asm", "indirect-call"}:
+            return None, "amount %d: unmodelled" % val
+        exp2 = inst.expect(ctx2)
+        specs = [(b_, l_, None) for (b_, l_, d_) in ctx2.argspecs]
+        v2, d2, w2 = lanecheck.compare(S2.ret, exp2, S2, specs, ctx2.names, eb, inst.pure)
+        if v2 != HOLDS:
+            return None, "amount %d: %s %s" % (val, v2, (d2 or "")[:120])
+        cases += 1
+    if not cases:
+        return None, "no amount in the domain"
+    return HOLDS, ("complete case split on the %d-bit amount: %d values in the documented domain, each substituted as a "
+                   "constant and decided (identical normal form / truth table); output lane i mentions only lane i of "
+                   "the operands" % (nb, cases))
 
 
 def analyse_job(job):
@@ -239,6 +332,16 @@ def analyse_job(job):
             if job.get("override"):
                 j = getattr(ops, job["override"])
             v, detail, rule, wit = j(ctx, inst, S)
+            if v == UNDECIDED and getattr(inst, "amount_arg", None) and not job.get("override"):
+                T.set_budget(nodes=600000, seconds=40 if job.get("tier") != "quick" else 15)
+                try:
+                    v3, d3 = amount_split(I, vt, inst, f, ctx, S)
+                except T.TooBig:
+                    v3, d3 = None, "budget"
+                if v3 == HOLDS:
+                    v, detail = HOLDS, d3
+                else:
+                    detail = "%s [amount split: %s]" % ((detail or "")[:300], d3)
             if v == REFUTED and prop:
                 # a listed finding must not hide a different violation of the same instance: search again
                 # with the finding's inputs excluded
